@@ -9,6 +9,7 @@ package main
 import (
 	"bytes"
 	"fmt"
+	"math"
 	"math/big"
 	"math/rand"
 	"sort"
@@ -29,7 +30,33 @@ type e2Scenario struct {
 }
 
 var e2Cols = []ColSpec{{"x", KInt64}, {"m", KInt64}, {"im", KInt64Mul}, {"sc", KStringCat}, {"s", KString}, {"e", KEnum}, {"b", KBool}, {"f", KFloat64}, {"rm", KRecordMerge},
-	{"p0", KInt64}, {"p1", KInt64}, {"p2", KInt64}, {"p3", KInt64}}
+	{"p0", KInt64}, {"p1", KInt64}, {"p2", KInt64}, {"p3", KInt64},
+	// one merge column per remaining numeric kind (absent at first: the first merge lands on "no value")
+	{"ni", KInt}, {"ni16", KInt16}, {"ni32", KInt32}, {"nu", KUint}, {"nu16", KUint16}, {"nu32", KUint32}, {"nu64", KUint64}, {"nf32", KFloat32}}
+
+// allNums merges n into every numeric-kind column of the row (f is float64, m is int64)
+func allNums(n int64) []Write {
+	out := []Write{}
+	for _, c := range e2Cols {
+		if len(c.Name) > 1 && c.Name[0] == 'n' {
+			out = append(out, addK(c.Name, c.Kind, n))
+		}
+	}
+	return out
+}
+
+func addK(col string, k Kind, n int64) Write {
+	b := uint64(n)
+	switch k {
+	case KFloat32:
+		b = uint64(math.Float32bits(float32(n)))
+	case KFloat64:
+		b = math.Float64bits(float64(n))
+	}
+	return Write{Col: col, Merge: true, V: Val{B: canonBits(k, b)}}
+}
+
+func with(base []Write, more ...Write) []Write { return append(append([]Write{}, base...), more...) }
 
 var e2Idx = []IndexSpec{{Name: "m_big", Col: "m", P: Pred{Op: "int>=", I: 3}}, {Name: "x_neg", Col: "x", P: Pred{Op: "int<", I: 0}}, {Name: "sc_long", Col: "sc", P: Pred{Op: "len>", I: 1}}}
 
@@ -56,8 +83,8 @@ const b1 = 16384
 var e2Scenarios = map[string]e2Scenario{
 	// two writers on one row of one block: own cells + shared merges (prefix-distinguishable)
 	"2w1b": {Name: "2w1b", Rows: []uint32{1, 2, 3}, Writers: [][]TxnSpec{
-		{txn(at(1, put("p0", 101), add("m", 1), add("im", 5), cat("sc", "a"), rmg(1, "x")))},
-		{txn(at(1, put("p1", 201), add("m", 2), add("im", 7), cat("sc", "b"), rmg(2, "")), at(2, put("x", -7)))},
+		{txn(at(1, with(allNums(3), put("p0", 101), add("m", 1), add("im", 5), cat("sc", "a"), rmg(1, "x"))...))},
+		{txn(at(1, with(allNums(5), put("p1", 201), add("m", 2), add("im", 7), cat("sc", "b"), rmg(2, ""))...), at(2, put("x", -7)))},
 	}},
 	// one writer with one transaction, one with two
 	"2w1b-3txn": {Name: "2w1b-3txn", Rows: []uint32{1, 2, 3}, Writers: [][]TxnSpec{
